@@ -60,7 +60,7 @@ HARNESSES = HARNESSES + _lp_init("quick", 8, 3, 3) + _lp_init("thorough", 16, 4,
 _sp12 = _ilu.spec_from_file_location("spec_C12_for_C05", _os.path.join(_os.path.dirname(__file__), "C12.py"))
 _m12 = _ilu.module_from_spec(_sp12); _m12.H = H; _sp12.loader.exec_module(_m12)
 FMM = "harness/c05_multi_modular.c"
-_UWM = tuple([f"{e}.{k}:8" for e in ("h_take_modular", "h_take_restore_modular") for k in range(8)] + [f"h_lp_fini_modular.{k}:10" for k in range(8)] + ["model_allocator_lp_fini.0:5", "model_allocator_lp_fini.1:6"] + ["aidx.0:6", "expected_size.0:6", "free.0:10", "memcpy.0:6",
+_UWM = tuple([f"{e}.{k}:10" for e in ("h_take_modular", "h_take_restore_modular") for k in range(12)] + [f"h_lp_fini_modular.{k}:10" for k in range(8)] + ["model_allocator_lp_fini.0:5", "model_allocator_lp_fini.1:6"] + ["aidx.0:6", "expected_size.0:6", "free.0:10", "memcpy.0:6", "memmove.0:50",
              "model_allocator_checkpoint_take.0:6", "model_allocator_checkpoint_take.1:6", "model_allocator_checkpoint_restore.0:6", "model_allocator_checkpoint_restore.1:6", "model_allocator_checkpoint_restore.2:5"])
 HARNESSES = HARNESSES + [
     H(name="C05.multi_take.modular", file=FMM, entry="h_take_modular", funcs=["model_allocator_checkpoint_take"], kind="bounded", bound="<= 3 arenas (any numbers of live bytes); per-arena functions by their contracts (executable stubs)",
